@@ -95,6 +95,52 @@ def generate(ctx, rng):
                                    "reply_delay": 0.0, "apply_at": rng.choice([0.0, 0.0, 0.0005]), "version": rng.choice([2, 3])}
 
 
+    # settings chosen by member NAME (what applications and the command line do): the command must carry the vendor's code for it
+    yield ("names", 0), {"kind": "names"}
+
+
+# vendor codes of the named members (reference Lua / README), independent of the library's own enum tables
+NAMED = [("operational_mode", "OperationalMode", {"AUTO": 1, "COOL": 2, "DRY": 3, "HEAT": 4, "FAN_ONLY": 5, "SMART_DRY": 6}, "mode"),
+         ("fan_speed", "FanSpeed", {"AUTO": 102, "MAX": 100, "HIGH": 80, "MEDIUM": 60, "LOW": 40, "SILENT": 20}, "fan"),
+         ("swing_mode", "SwingMode", {"OFF": 0x0, "VERTICAL": 0xC, "HORIZONTAL": 0x3, "BOTH": 0xF}, "swing"),
+         ("aux_mode", "AuxHeatMode", {"OFF": 0, "AUX_HEAT": 1, "AUX_ONLY": 2}, "aux")]
+
+
+def _names(ctx, case):
+    from ..simdev import ACModel
+    net = H.new_net()
+    model = ACModel()
+    dev = SimDevice(net, version=2, device_id=0xABD, ac=model)
+    out = []
+
+    async def go(loop):
+        ac = AC(ip=dev.host, port=dev.port, device_id=dev.device_id)
+        await ac.refresh()
+        for attr, cls, table, field in NAMED:
+            enum = getattr(AC, cls)
+            for name, code in table.items():
+                try:
+                    setattr(ac, attr, enum[name])
+                except KeyError:
+                    out.append((attr, name, code, "no-such-member"))
+                    continue
+                n0 = len(model.controls)
+                await ac.apply()
+                got = acstate.decode_0x40(model.controls[-1])[field] if len(model.controls) > n0 else None
+                out.append((attr, name, code, got))
+
+    try:
+        H.run_virtual(go, net)
+    except Exception as e:  # noqa: BLE001
+        ctx.count(("names",), kind="names-raised")
+        ctx.violation(f"names-raises/{type(e).__name__}", f"{type(e).__name__}: {e}", case)
+        return
+    for attr, name, code, got in out:
+        ctx.count(("names", attr, name), kind="named-member-checked")
+        if got != code:
+            ctx.violation(f"field-{attr}", f"{attr} = {name} put {got!r} on the wire, the vendor's code for it is {code}", case)
+
+
 _SEEN = {}
 
 
@@ -105,6 +151,8 @@ def setup(ctx):
 def run_case(ctx, case):
     if case.get("kind") == "overlap":
         return _overlap(ctx, case)
+    if case.get("kind") == "names":
+        return _names(ctx, case)
     import random
     states = case["states"]
     net = H.new_net()
